@@ -101,6 +101,10 @@ def render_stmt(sk, ind, ctr, is_main, mode=0):
     if k == "mark":
         return p + "println(\"m%d\");\n" % sk[1]
     if k == "call":
+        if mode == 2:
+            # the callee returns a string and is called through a function pointer (another copy of the call code)
+            ctr[0] += 1
+            return p + "string* cb%d = &fn%d;\n" % (ctr[0], sk[1]) + p + "string s%d = cb%d();\n" % (ctr[0], ctr[0])
         return p + "fn%d();\n" % sk[1]
     if k == "block":
         return p + "{\n" + "".join(render_stmt(x, ind + 1, ctr, is_main, mode) for x in sk[1]) + p + "}\n"
@@ -120,7 +124,7 @@ def render_stmt(sk, ind, ctr, is_main, mode=0):
         return (p + "int %s = 0;\n" % v + p + "while (%s < %d) {\n" % (v, sk[1]) + p + "    %s = %s + 1;\n" % (v, v) +
                 body + p + "}\n")
     if k == "ret":
-        return p + ("return 0;\n" if is_main else "return;\n")
+        return p + ("return 0;\n" if is_main else ("return \"r\";\n" if mode == 2 else "return;\n"))
     if k == "brk":
         return p + "break;\n"
     if k == "cont":
@@ -130,9 +134,12 @@ def render_stmt(sk, ind, ctr, is_main, mode=0):
 
 def render(funcs, mode=0):
     ctr = [0]
-    out = [HDR + (HDR2 if mode else "")]
+    out = [HDR + (HDR2 if mode == 1 else "")]
     for i in range(len(funcs) - 1, 0, -1):
-        out.append("void fn%d() {\n%s}\n" % (i, "".join(render_stmt(s, 1, ctr, False, mode) for s in funcs[i])))
+        if mode == 2:
+            out.append("string fn%d() {\n%s    return \"e\";\n}\n" % (i, "".join(render_stmt(s, 1, ctr, False, mode) for s in funcs[i])))
+        else:
+            out.append("void fn%d() {\n%s}\n" % (i, "".join(render_stmt(s, 1, ctr, False, mode) for s in funcs[i])))
     out.append("int main() {\n%s    return 0;\n}\n" % "".join(render_stmt(s, 1, ctr, True, mode) for s in funcs[0]))
     return "".join(out)
 
@@ -269,7 +276,9 @@ def main(a):
     else:
         base = list(exhaustive(quick)) + list(random_programs(a.seed, 400 if quick else 30000))
         # every skeleton once with flat objects and once with objects whose value members have destructors
-        progs, modes = base + base, [0] * len(base) + [1] * len(base)
+        # ... and (programs with calls) once with string-returning callees called through function pointers
+        withcalls = [f for f in base if any("call" in sx(s_) for fn_ in f for s_ in fn_)]
+        progs, modes = base + base + withcalls, [0] * len(base) + [1] * len(base) + [2] * len(withcalls)
     listed = {f["id"]: f for f in json.load(open(os.path.join(common.ROOT, "known_findings.json"))).get("findings", [])
               if f["property"] == PID}
     known_cells = {}
